@@ -164,6 +164,9 @@ def policy_cfg(rng, tag):
                 match.append({"name": rng.choice(["scope", "protocol", "service"]), "values": [rng.choice(["s1", "s2", "ip", "shell"])], "opt": False})
             sets = [{"name": rng.choice(["priv-lvl", "shell:roles", "idletime", "x"]), "values": [rng.choice(["15", "1", "admin", "network-admin vdc-admin", "7"])],
                      "opt": rng.random() < 0.3} for _ in range(rng.randint(1, 2))]
+            if rng.random() < 0.06:
+                # a value that no reply argument can carry (name=value longer than 255 octets): the request still gets one reply
+                sets[0]["values"] = ["role-" + "abcdefghij" * rng.choice([25, 30, 60])]
             out.append({"name": nm, "match": match, "set": sets, "opt": rng.random() < 0.3})
         return out
     def shadow_rules():
